@@ -212,7 +212,17 @@ def apply_resultpath(input, result, path="$"):
             "The value of \"ResultPath\" MUST NOT begin with \"$$\""
         )
 
-    matches = re.findall(r"[^$.[\]]+", path)  # Regex to split the reference paths
+    """
+    Regex to split the reference path into its keys. The keys of the bracket
+    notation e.g. $['a b'] or $["a.b"] are matched first and have their quotes
+    removed, as the quotes are not part of the key.
+    """
+    matches = [
+        quoted[1:-1] if quoted else key
+        for quoted, key in re.findall(
+            r"\[\s*('[^']*'|\"[^\"]*\")\s*\]|([^$.[\]]+)", path
+        )
+    ]
     return update_path(input, matches, result)
 
 def evaluate_payload_template(input, context, template):
